@@ -24,6 +24,7 @@ import InspectorModel.Lib.Assign
 import InspectorModel.Lib.Strings
 import InspectorModel.Lib.Static
 import InspectorModel.Lib.StrAnyMap
+import InspectorModel.Lib.Reflect
 import InspectorModel.Lib.Buffer
 import InspectorModel.Lib.Sharing
 import InspectorModel.Spec.Nav
